@@ -165,12 +165,23 @@ def lean_build(prop_modules, need_driver=True):
                     res.failed[n] = "non-standard axioms: %s" % sorted(seen[n] - STD_AXIOMS)
                 else:
                     res.discharged.append(n)
+    limit_memory()
     res.forbidden = forbidden_hits(lean_files())
     if res.forbidden:
         for n in list(res.discharged):
             res.failed[n] = "forbidden construct in Lean sources: %s" % res.forbidden[0]
         res.discharged = []
     return res
+
+
+def limit_memory(gib=24):
+    """soft address-space limit for the harness process itself (called after the Lean build, whose children need
+    more): a runaway implementation call then fails with MemoryError instead of taking the machine down"""
+    import resource
+    try:
+        resource.setrlimit(resource.RLIMIT_AS, (gib << 30, resource.getrlimit(resource.RLIMIT_AS)[1]))
+    except (ValueError, OSError):
+        pass
 
 
 def driver_path():
